@@ -86,8 +86,15 @@ def rand_run(rng, start_fields, allow_abort=True):
 def rand_script(rng, allow_abort=True):
     f = rand_fields(rng)
     runs, cur = [], f
-    for _ in range(rng.choices([1, 2, 3], weights=[14, 5, 1])[0]):
+    for k in range(rng.choices([1, 2, 3], weights=[14, 5, 1])[0]):
+        reload = None
+        if k and rng.random() < 0.4:
+            # a new job for the same object: the file is replaced and loaded again before this run
+            reload = rand_fields(rng)
+            cur = reload
         r, cur = rand_run(rng, cur, allow_abort)
+        if reload is not None:
+            r["reload"] = reload
         runs.append(r)
     return f, runs
 
